@@ -34,12 +34,13 @@ CLAIMED = {
         "Trusted: jinja2 parser, ast; grpc / api_core behaviour.",
         "DESIGN.md 4/C03"),
     "C04": (
-        "slot / guard / path rules on REST transport skeletons + ast patterns and regex-AST rules on HTTP rule parsing",
+        "slot / guard / path rules on REST transport skeletons + finite-model decision of try_parse_http_rule + name-space (PY/WIRE spelling) typing of the query/path/body split + regex-AST rules",
         "Decides that every binding is emitted in order with verb, uri and body-iff-body, that transcoding receives the binding "
         "table and the protobuf form of the request, that body/query JSON and $alt follow the numeric-enum option, that required "
         "query fields get defaults keyed by JSON names, that errors raise before the reply is parsed with ignore_unknown_fields "
         "into the declared type, that methods without a binding raise NotImplementedError, and that the path-variable regexes "
-        "cannot swallow later variables. Losslessness of transcoding itself is api_core's and is not claimed.",
+        "cannot swallow later variables, and that the query/path/body split never compares a Python-spelled field name with a proto-spelled one "
+        "(two-point type system, vlib/namespaces.py). Losslessness of transcoding itself is api_core's and is not claimed.",
         "Trusted: google.api_core.path_template.transcode, protobuf json_format.",
         "DESIGN.md 4/C04"),
     "C05": (
@@ -122,7 +123,7 @@ CLAIMED = {
         "Trusted: protobuf MessageToJson; Jinja `sort`/`unique` filters.",
         "DESIGN.md 4/C15"),
     "C16": (
-        "traversal exhaustiveness computed from dataclass annotations (ast) + visited-set discipline + comprehension-shape rules + must-pass-through",
+        "traversal exhaustiveness computed from dataclass annotations (ast) + visited-set discipline + comprehension-shape rules + must-pass-through + finite-model entailment of early-return guards",
         "Decides that the allow-list walk of every addressable wrapper adds its own address and descends into every field whose type can "
         "itself be allow-listed (listed exceptions with reasons), that a visited-set test is only ever on the node's own identity, that "
         "pruning filters exactly the four collections by membership and leaves dependencies alone, that selection is by fully-qualified "
@@ -130,7 +131,7 @@ CLAIMED = {
         "Trusted: dataclasses.replace semantics.",
         "DESIGN.md 4/C16"),
     "C17": (
-        "ast pattern rules on the selection code + agreement of every hand-written mixin block with MIXINS_MAP and the services' descriptors",
+        "normal-form rules on the selection code + constant folding of MIXINS_MAP (literal, comprehension or descriptor-derived) + agreement of every hand-written mixin block with it and the services' descriptors",
         "Decides the per-API selection flags, selector-based method selection, exact-name IAM overrides, that MIXINS_MAP equals the 10 "
         "methods and types of the three mixin services (descriptor data from googleapis-common-protos), and that in the sync client, "
         "asyncio client, gRPC / asyncio stubs and base transport every method has exactly one block under its own guard with the "
